@@ -64,6 +64,7 @@ type hist struct {
 	govMinGas                      sdkmath.LegacyDec
 	wideSlots                      [][]byte
 	edgeDeployers                  []*vh.Acct // keys whose first contract lands at an address starting with 0xff / 0x00
+	govNoExtraEIPs                 bool       // the governance proposal of this history sets the extra EIP list to empty
 	hugeBaseFee                    bool       // quiet history: base fee above 2^64, empty blocks only
 }
 
@@ -160,6 +161,8 @@ func Run(run *vh.Run) {
 	run.Floor("vauth proofs in exported states", run.Get("state_vauth_proofs"), int64(run.N(4, 100)))
 	run.Floor("histories with governance-changed params", run.Get("hist_gov_params_changed"), int64(run.N(3, 75)))
 	run.Floor("round trips with base fee different from genesis", run.Get("state_base_fee_moved"), int64(run.N(4, 100)))
+	run.Floor("histories in which governance switched every extra EIP off", run.Get("hist_gov_switched_all_extra_eips_off"), int64(run.N(2, 30)))
+	run.Floor("contracts whose runtime code starts with a byte below 0x10", run.Get("contracts_whose_code_starts_with_a_byte_below_0x10"), int64(run.N(40, 700)))
 	run.Floor("round trips with a base fee above 2^64", run.Get("round_trips_with_a_base_fee_above_2^64"), int64(run.N(3, 20)))
 	run.Floor("contracts at addresses starting with 0xff or 0x00 in exported states", run.Get("state_contracts_at_edge_addresses"), int64(run.N(8, 200)))
 	run.Floor("genesis flag combinations", int64(run.DistinctN("flags")), 4)
@@ -362,6 +365,12 @@ func (h *hist) play(blocks int) {
 		}
 	}
 	h.child = crypto.CreateAddress2(h.factory, common.BigToHash(big.NewInt(1)), crypto.Keccak256(childInit))
+	// contracts whose runtime code starts with bytes below 0x10 (STOP-prefixed data contracts, ADD, MUL ...): the hex text of
+	// their code starts with '0' characters
+	for _, rt := range [][]byte{{0x00, 0xde, 0xad, 0xbe, 0xef}, {0x00, 0x00, 0x01, 0x02}, {0x01}, {0x0f, 0x00, 0x10}} {
+		txs = append(txs, w.PlanEth(w.EOAs[1], nil, nil, 300_000, vh.Deployer(rt), "ok", nil).Bytes)
+		h.run.Count("contracts_whose_code_starts_with_a_byte_below_0x10", 1)
+	}
 	for k, d := range h.edgeDeployers {
 		txs = append(txs, w.PlanEth(d, nil, nil, 1_500_000, initStoring(uint64(0x70+k), childRuntime()), "ok", nil).Bytes)
 	}
@@ -521,6 +530,10 @@ func (h *hist) govParamsTxs() [][]byte {
 	ctx := h.c.QueryCtx()
 	ep := h.c.App.EvmKeeper.GetParams(ctx)
 	ep.ExtraEIPs = append(append([]int64{}, ep.ExtraEIPs...), 1344)
+	if h.i%3 == 2 { // governance switches every extra EIP off: the empty list is a value of its own, not "use the defaults"
+		ep.ExtraEIPs = []int64{}
+		h.govNoExtraEIPs = true
+	}
 	fp := h.c.App.FeeMarketKeeper.GetParams(ctx)
 	// the new minimum gas price has a fractional part and lies just below the base fee in force, so that the base fee
 	// decays onto its floor (the integer part) within a block or two and is exported from there
@@ -547,6 +560,12 @@ func (h *hist) checkGovApplied() {
 	for _, e := range h.c.App.EvmKeeper.GetParams(ctx).ExtraEIPs {
 		if e == 1344 {
 			evmOK = true
+		}
+	}
+	if h.govNoExtraEIPs {
+		evmOK = len(h.c.App.EvmKeeper.GetParams(ctx).ExtraEIPs) == 0
+		if evmOK {
+			h.run.Count("hist_gov_switched_all_extra_eips_off", 1)
 		}
 	}
 	for _, d := range h.c.App.CPCKeeper.GetParams(ctx).WhitelistedDeployers {
